@@ -32,7 +32,7 @@ TRUSTED = [
     "the serialized pre-image is observed by wrapping the `json` name inside hypergraphx.readwrite.hashing for the "
     "duration of one call (no change under /repo)",
 ]
-BUDGET_S = {"quick": 50, "thorough": 800}
+BUDGET_S = {"quick": 40, "thorough": 800}
 
 KINDS = ["H", "D", "T", "M"]
 TAG = {"H": "Hypergraph", "D": "DirectedHypergraph", "T": "TemporalHypergraph", "M": "MultiplexHypergraph"}
@@ -541,6 +541,28 @@ def unmap_tree(kind, tree, unrank, unlrank):
     return out
 
 
+def wf_real(kind, h):
+    """the model's `WF` evaluated on the real tables (public `expose_data_structures()`); list of failed clauses"""
+    d = h.expose_data_structures()
+    adj = d["_adj_source"] if kind == "D" else d["_adj"]
+    nm, el, ws, em = d["node_metadata"], d["_edge_list"], d["_weights"], d["edge_metadata"]
+    bad = []
+    if set(adj) != set(nm):
+        bad.append("node tables differ: adjacency %r, _node_metadata %r" % (sorted(adj, key=repr), sorted(nm, key=repr)))
+    ids = list(el.values())
+    if len(set(ids)) != len(ids):
+        bad.append("an id is used by two keys")
+    if any(i not in ws for i in ids):
+        bad.append("a hyperedge without weight entry")
+    if any(i not in em for i in ids):
+        bad.append("a hyperedge without metadata entry")
+    if any(not (i < d["next_edge_id"]) for i in ids):
+        bad.append("an id not below next_edge_id")
+    if any(canon_key(kind, k) != k for k in el):
+        bad.append("a non-canonical key")
+    return bad
+
+
 def state_digest(h):
     return repr(sorted((k, repr(v)) for k, v in vars(h).items()))
 
@@ -978,6 +1000,8 @@ def edit_value(v, rng):
         out[rng.choice(ks)] = gen_value(rng, 2)
         return out
     if isinstance(v, list):
+        if len(v) >= 2 and tsig(v[::-1]) != tsig(v) and rng.random() < 0.3:
+            return v[::-1]                            # the order of a list is part of the value
         if v and rng.random() < 0.7:
             i = rng.randrange(len(v))
             return v[:i] + [edit_value(v[i], rng)] + v[i + 1:]
@@ -1034,7 +1058,7 @@ def run_history(ctx, drv, slot, kind, weighted, user_hm, ops, rank, lrank, case,
         if d1 != d2:
             ctx.violation({**case, "at": pos}, "hashing twice gives two digests")
         if not (isinstance(d1, str) and len(d1) == 64):
-            ctx.violation({**case, "at": pos}, "digest is not a 64-character string: %r" % (d1,))
+            note_disagree(ctx, {**case, "at": pos}, "digest is not a 64-character hex string: %r" % (d1,))
         try:
             hc = plain_hash(copy.deepcopy(h))
             if hc != d1:
@@ -1044,6 +1068,15 @@ def run_history(ctx, drv, slot, kind, weighted, user_hm, ops, rank, lrank, case,
         except Exception:
             pass
         res["digest"] = d1
+        try:
+            bad = wf_real(kind, h)
+            ctx.count("wf_checked")
+            if bad:
+                note_disagree(ctx, {**case, "at": pos}, "the tables of the real object violate WF (C07_wf_run): " + "; ".join(bad))
+        except Timeout:
+            raise
+        except Exception as e:
+            note_disagree(ctx, {**case, "at": pos}, "expose_data_structures() unusable: %r" % (e,))
         try:
             obs = observe(kind, h)
             res["sig"] = signature(kind, obs)
@@ -1179,7 +1212,8 @@ def check_case(ctx, drv, case):
     ctx.count("pairs_equal_content", n_equal)
     ctx.count("pairs_total", len(ends) * (len(ends) - 1) // 2)
     # difference direction: single-element edits
-    base = ends[0]
+    base = ends[0] if ends else None
+    edited = []
     for ed in case.get("edits", []):
         sub = {"kind": kind, "weighted": ed["weighted"], "user_hm": ed["user_hm"], "labels": labs, "history": ed["ops"],
                "edit": ed["name"]}
@@ -1192,9 +1226,12 @@ def check_case(ctx, drv, case):
         finally:
             signal.alarm(0)
         slot += 1
-        if res is None or base is None or base["sig"] is None or res[-1]["sig"] is None:
+        if res is None or res[-1]["sig"] is None:
             continue
         e = res[-1]
+        if base is None or base["sig"] is None:
+            edited.append((ed, e))
+            continue
         pair = {"kind": kind, "weighted": case["weighted"], "user_hm": case["user_hm"], "labels": labs,
                 "histories": [case["histories"][0]], "edits": [ed]}
         ctx.count("edit:" + ed["name"])
@@ -1204,6 +1241,18 @@ def check_case(ctx, drv, case):
                 ctx.violation(pair, "content edited (%s) but the hash did not change" % ed["name"])
         elif e["digest"] != base["digest"]:
             ctx.violation(pair, "edit %s left the observed content equal but the hash changed" % ed["name"])
+        edited.append((ed, e))
+    # the edited contents among themselves: content and digest must induce the same partition
+    for i in range(len(edited)):
+        for j in range(i + 1, len(edited)):
+            (ed1, a), (ed2, b) = edited[i], edited[j]
+            if (a["sig"] == b["sig"]) != (a["digest"] == b["digest"]):
+                ctx.violation({"kind": kind, "weighted": case["weighted"], "user_hm": case["user_hm"], "labels": labs,
+                               "histories": [], "edits": [ed1, ed2]},
+                              "two edited contents (%s, %s): contents %s, hashes %s" % (
+                                  ed1["name"], ed2["name"], "equal" if a["sig"] == b["sig"] else "differ",
+                                  "equal" if a["digest"] == b["digest"] else "differ"))
+            ctx.count("edit_pairs")
     return n_equal
 
 
@@ -1252,7 +1301,7 @@ def run(ctx):
     for w in WITNESSES:
         check_case(ctx, drv, copy.deepcopy(w))
         ctx.case("witness:" + json.dumps(w, sort_keys=True), True)
-    n = ctx.scale(600, 12000)
+    n = ctx.scale(450, 12000)
     for i in range(n):
         kind = KINDS[i % 4]
         case, used, nontrivial = gen_case(ctx.rng, kind)
